@@ -478,6 +478,82 @@ def check_uses_dask(rep, ddf, frames, meta):
                           {**meta, 'got': gotp, 'want': wantp})
 
 
+def source_state(df, box):
+    """what a caller can see of a frame: type, active column, columns, index name, the rows cx selects"""
+    try:
+        rows = sorted(map(str, df.cx[box[0]:box[1], box[2]:box[3]].index.tolist()))
+    except Exception as e:  # noqa: BLE001
+        rows = f'{type(e).__name__}'
+    return (type(df).__name__, U.active(df), [str(c) for c in df.columns], list(df.index.names), len(df), rows)
+
+
+FOLLOW_UPS = ['set_geometry-inplace', 'assign-column', 'drop-inplace', 'rename_axis-inplace']
+
+
+def check_independence(rep, cols, target):
+    """The result of a NON-inplace operation is an object of its own: mutate it afterwards
+    (inplace set_geometry, column assignment, drop(inplace=True), index rename) and look at the
+    source again (type, active column, columns, index names, the rows cx selects)."""
+    from spatialpandas import GeoDataFrame
+    gnames = [n for n, k, _ in cols if k is not None]
+    others = [g for g in gnames if g != target]
+    if not others:
+        return
+    box = U.box_over(1, 3)
+
+    def fresh():
+        return GeoDataFrame(U.build_dict(cols)).set_geometry(target)
+    ops = [o for o in canonical_ops(fresh())
+           if not (o['op'] == 'OSetGeometry' and o.get('inplace'))]
+    # set_geometry(<the column that is active already>), not inplace
+    ops.append({'op': 'OSetGeometry', 'g': target, 'inplace': False})
+    for op in ops:
+        for fu in FOLLOW_UPS:
+            src = fresh()
+            if not U.pop_applicable(src, op):
+                continue
+            before = source_state(src, box)
+            try:
+                res = U.apply_pop(src, dict(op))
+            except Exception:  # noqa: BLE001
+                continue
+            rep.evaluations += 1
+            meta = {'kind': 'independence', 'columns': cols, 'target': target, 'op': U.strip_private(op),
+                    'follow_up': fu, 'source_before': before}
+            if res is src:
+                rep.violation(f'result-is-source:{op["op"]}',
+                              f'{op["op"]} (not inplace) returned the very object it was applied to', meta)
+                break
+            try:
+                rcols = [str(c) for c in res.columns]
+                if fu == 'set_geometry-inplace':
+                    if not isinstance(res, GeoDataFrame):
+                        continue
+                    alt = [c for c in others if c in rcols]
+                    if not alt:
+                        continue
+                    res.set_geometry(alt[0], inplace=True)
+                elif fu == 'assign-column':
+                    res['zz_new'] = 1
+                    if rcols:
+                        res[rcols[-1]] = res[rcols[-1]]
+                elif fu == 'drop-inplace':
+                    plain = [c for c in rcols if c not in gnames] or rcols
+                    res.drop(columns=[plain[0]], inplace=True)
+                else:
+                    res.rename_axis('renamed_axis', inplace=True)
+            except Exception as e:  # noqa: BLE001
+                rep.count(f'independence:follow-up-raised:{type(e).__name__}')
+                continue
+            after = source_state(src, box)
+            rep.nontrivial(('independence', repr(cols), op['op'], repr(U.strip_private(op))[:80], fu))
+            if after != before:
+                rep.violation(f'result-shares-state:{op["op"]}',
+                              f'mutating the result of {op["op"]} ({fu}) changed the frame it came from',
+                              {**meta, 'source_after': after})
+                break
+
+
 def check_provenances(rep, cols, target, tmp, tag):
     """A Dask frame whose partitions are CONCRETE, re-used objects (persist(), from_delayed over
     existing GeoDataFrames) next to those re-created per compute (from_pandas, read_parquet_dask):
@@ -846,6 +922,10 @@ def run(rep):
                     if U.pop_applicable(df1, op2):
                         add_pandas(cols, [dict(o) for o in base] + [dict(op1), dict(op2)], target)
     mark('table')
+    # results of non-inplace operations are independent objects
+    for cols, target in fixed[:(3 if quick else len(fixed))]:
+        check_independence(rep, cols, target)
+    mark('independence')
     # GeoSeries -> frame (geoseries._constructor_expanddim_from_mgr)
     e_cases, e_res = [], []
     for cols, target in fixed:
@@ -1229,6 +1309,12 @@ def replay(rep, rp):
             return not bad and not rep.violations
         finally:
             shutil.rmtree(tmp, ignore_errors=True)
+    if kind == 'independence':
+        r2 = C.Report(rep.pid, rep.tier, rep.seed)
+        check_independence(r2, cols, rp['target'])
+        for v in r2.violations:
+            print('still:', v['signature'], v['what'])
+        return not r2.violations
     if kind == 'provenance':
         tmp = tempfile.mkdtemp(prefix='sp_c20_')
         try:
